@@ -9,7 +9,7 @@ engine.wire.Extractor).  Every I/O construct becomes a token; loops become starr
   D;            string-table reference: call of a configured reader callable (from_dict()) // f.write(<configured writer callable>(x))
   Z<enc>;       NUL-terminated string: read_nullstr(..) // f.write(x.encode(E) + b'\\0')
   R<n>; Rvar;   raw byte run of constant / variable size
-  SUB:<name>;   call of a sub-record reader / writer that the rule pairs separately (configured name -> label table)
+  @<name>;      call of a sub-record reader / writer that the rule pairs separately (configured name -> label table)
 
 Helper functions named in `inline` are expanded in place with their parameters bound to the caller's argument *source text*
 (so configuration keys can refer to them).  Anything that touches the stream and is not recognised is an AnalysisError.
@@ -29,6 +29,11 @@ class Tok:
     __slots__ = ('text', 'node', 'args', 'names')
 
     def __init__(self, text: str, node: ast.AST, args: Optional[List[ast.AST]] = None, names: Optional[List[str]] = None) -> None:
+        if text.startswith('S') and text.count(';') > 1:
+            text = text[:-1].replace(';', ',') + ';'           # `s4;` string slots inside a struct token
+        m = re.fullmatch(r'R(\d+);', text)
+        if m:
+            text = f'Ss{m.group(1)},;'                          # a fixed-size raw run is an `Ns` slot
         self.text, self.node, self.args, self.names = text, node, args, names
 
     def __repr__(self) -> str:
@@ -162,7 +167,7 @@ class TokWire:
             pre: List[Any] = []
             for a in c.args:
                 pre += self.expr(a)
-            return pre + [Tok('SUB:' + self.sub.get(d, self.sub.get(last, '')) + ';', c)]
+            return pre + [Tok('@' + self.sub.get(d, self.sub.get(last, '')) + ';', c)]
         if (d in self.inline or last in self.inline) and self.depth < 4:
             fn = self.inline.get(d) or self.inline[last]
             return self.inlined(fn, c)
